@@ -5,6 +5,7 @@ import (
 	"fmt"
 	"math"
 	"strings"
+	"sync"
 	"testing"
 
 	"github.com/cloudwego/dynamicgo/meta"
@@ -25,6 +26,7 @@ type Opts struct {
 	WriteDefault   bool `json:"write_default"`
 	NativeSkip     bool `json:"native_skip"`
 	UseDefault     bool `json:"use_default_value"` // parse option: IDL defaults are what WriteDefault fills in
+	distinct       bool // model only: source and target descriptors come from two parses, nothing is pointer-equal
 }
 
 // Case: U holds the source structs S* and the derived target structs T*; U.Root is the
@@ -40,11 +42,33 @@ type Case struct {
 
 type projErr struct{ msg string }
 
+type poisonPair struct{ from, to *thrift.TypeDescriptor }
+
+var poisonOnce sync.Once
+var poisonVal poisonPair
+
+func poisonDescs() poisonPair {
+	poisonOnce.Do(func() {
+		var b strings.Builder
+		b.WriteString("struct P { 1: i32 a }\nstruct Q {\n 1: i32 a\n")
+		for id := 70; id < 1100; id += 64 {
+			fmt.Fprintf(&b, " %d: i32 f%d\n", id, id)
+		}
+		b.WriteString("}\nstruct W { 1: P p, 2: Q q }\nservice Svc { W Call(1: W req) }\n")
+		comp, err := tm.Compile(b.String(), thrift.Options{})
+		if err != nil {
+			panic(err)
+		}
+		poisonVal = poisonPair{comp.Root.Struct().FieldById(1).Type(), comp.Root.Struct().FieldById(2).Type()}
+	})
+	return poisonVal
+}
+
 // project computes the model projection. It returns (nil, err) when the statement demands an error.
 func project(u *tm.Universe, v *tm.Value, from, to *tm.Type, o Opts) (*tm.Value, *projErr) {
 	switch v.K {
 	case tm.STRUCT:
-		if from.Ref == to.Ref {
+		if from.Ref == to.Ref && !o.distinct {
 			// the identical descriptor (same struct of the same parse): "reproduces the input"
 			return v.Clone(), nil
 		}
@@ -299,6 +323,66 @@ func check(c *pbt.Ctx, cs Case) {
 		c.NonTrivial()
 	}
 	c.Class(fmt.Sprintf("opts:unk=%v,nocheck=%v,wd=%v", cs.O.DisallowUnknow, cs.O.NotCheckReq, cs.O.WriteDefault))
+	// the argument struct of the method (a descriptor the parser builds itself, with the argument's id as its only
+	// field - ids up to 32767) cut to itself right after the cut above: the input is reproduced
+	hasUnknown := false
+	if cs.V.K == tm.STRUCT {
+		if sd := cs.U.Struct(cs.Src.Ref); sd != nil {
+			for _, f := range cs.V.Fields {
+				if sd.Field(f.ID) == nil {
+					hasUnknown = true
+				}
+			}
+		}
+	}
+	if !hasUnknown && comp.Req != nil {
+		argID := cs.U.ArgID
+		if argID == 0 {
+			argID = 1
+		}
+		wv := &tm.Value{K: tm.STRUCT, Fields: []tm.FieldVal{{ID: argID, V: &tm.Value{K: tm.STRUCT, Fields: []tm.FieldVal{{ID: 1, V: cs.V}}}}}}
+		wenc := tm.Encode(wv)
+		// the target is the same struct of a second parse of the same IDL: equal, not identical
+		comp2, err := tm.Compile(cs.U.Render()+"\n// second parse\n", thrift.Options{UseDefaultValue: cs.O.UseDefault})
+		if err != nil {
+			c.Failf("idl-error", "dynamicgo rejects generated IDL: %v", err)
+		}
+		u2 := &tm.Universe{Structs: append(append([]tm.StructDef{}, cs.U.Structs...), tm.StructDef{Name: "CallArgs", Fields: []tm.FieldDef{{ID: argID, Name: "req", T: cs.U.Root}}}), Root: cs.U.Root}
+		argsT := &tm.Type{K: tm.STRUCT, Ref: "CallArgs"}
+		o2 := cs.O
+		o2.distinct = true
+		want2, perr2 := project(u2, wv, argsT, argsT, o2)
+		// first a cut that leaves default-requiredness fields of a wide target unset (ids in every word of a requires
+		// bitmap up to 1100): whatever per-call state the library recycles has been used with all those bits set
+		c.Step("a cut into a wide target struct whose fields stay unset")
+		c.Protect("", func() {
+			pc := poisonDescs()
+			_, _ = generic.NewValue(pc.from, []byte{8, 0, 1, 0, 0, 0, 7, 0}).MarshalTo(pc.to, &generic.Options{})
+		})
+		c.Step("MarshalTo of the argument struct (argument id %d) to the same struct of a second parse", argID)
+		var out2 []byte
+		var err2 error
+		if !c.Protect("", func() { out2, err2 = generic.NewValue(comp.Req, append([]byte{}, wenc...)).MarshalTo(comp2.Req, opts) }) {
+			return
+		}
+		switch {
+		case perr2 != nil:
+			if err2 == nil {
+				c.Failf("missing-error", "MarshalTo of the argument struct succeeded but the model demands an error: %s", perr2.msg)
+			}
+		case err2 != nil:
+			c.Failf("unexpected-error", "MarshalTo of the argument struct (argument id %d) failed: %v (model: success)", argID, err2)
+		default:
+			got2, derr2 := tm.DecodeStrict(tm.STRUCT, out2)
+			if derr2 != nil {
+				c.Failf("malformed-output", "MarshalTo of the argument struct: output is not well-formed: %v\n in  %x\n out %x", derr2, wenc, out2)
+			}
+			if d := cmp(got2, want2, "$"); d != "" {
+				c.Failf("wrong-projection", "MarshalTo of the argument struct (argument id %d) is not the projection: %s\n got  %s\n want %s", argID, d, got2.Short(), want2.Short())
+			}
+		}
+		c.Class(fmt.Sprintf("arg-struct:id>=64=%v", argID >= 64))
+	}
 }
 
 // ---------------------------------------------------------------------------
@@ -402,6 +486,7 @@ func genCase(t *rapid.T) Case {
 	}
 	u.Structs = append(u.Structs, tm.StructDef{Name: "W", Fields: []tm.FieldDef{{ID: 1, Name: "src", T: src}, {ID: 2, Name: "dst", T: dst}}})
 	u.Root = &tm.Type{K: tm.STRUCT, Ref: "W"}
+	u.ArgID = []int16{1, 2, 63, 64, 65, 100, 127, 128, 255, 300, 1000, 32767}[rapid.IntRange(0, 11).Draw(t, "argID")]
 	// unknown fields in the value (ids the source struct does not declare)
 	// (not with the identical descriptor: there the statement says the input is reproduced)
 	if !same && rapid.IntRange(0, 3).Draw(t, "unknown") == 0 && v.K == tm.STRUCT && dst.Ref != src.Ref {
